@@ -14,6 +14,19 @@ pub fn rg_path() -> String {
     std::env::var("VERIF_RG").unwrap_or_else(|_| format!("{}/target/rg/debug/rg", crate::runner::verif_root()))
 }
 
+/// A second rg binary built with `--features ignore/verif-hooks`: with the
+/// environment variable VERIF_YIELD_JITTER set it sleeps pseudo-randomly at
+/// the parallel walker's synchronisation points (timing perturbation for
+/// C08). Falls back to the ordinary binary when it has not been built.
+pub fn rg_jitter_path() -> String {
+    let p = std::env::var("VERIF_RG_JITTER").unwrap_or_else(|_| format!("{}/target/rg-jitter/debug/rg", crate::runner::verif_root()));
+    if std::path::Path::new(&p).exists() {
+        p
+    } else {
+        rg_path()
+    }
+}
+
 #[derive(Debug, Clone)]
 pub struct Out {
     /// exit status; None if killed by a signal or by the watchdog
